@@ -42,7 +42,32 @@ ASSUMPTIONS = [
     "the extractor are abstract: only *where* something raises matters",
 ]
 run_lean_unit = base.run_lean_unit
-CLASSES = [ValueError, FloatingPointError, MemoryError, KeyboardInterrupt]
+
+
+class InjectedError(Exception):
+    """a user-defined Exception subclass"""
+
+
+class InjectedAbort(BaseException):
+    """a user-defined BaseException-only class"""
+
+
+EXC_CLASSES = [ValueError, FloatingPointError, MemoryError, RuntimeError, ZeroDivisionError, KeyError, RecursionError,
+               AssertionError, OSError, np.linalg.LinAlgError, UserWarning, OverflowError, InjectedError, StopIteration]
+BASE_CLASSES = [KeyboardInterrupt, SystemExit, GeneratorExit, InjectedAbort]
+CLASSES = EXC_CLASSES + BASE_CLASSES
+# classes whose handling inside SciPy itself is part of SciPy's documented protocol (StopIteration ends an
+# optimisation when raised by a *callback*): kept out of the real-solver runs, present in the stubbed table
+REAL_CLASSES = [c for c in CLASSES if c is not StopIteration]
+CATCH_STEPS = ("minimize", "linprog", "extract", "compileHess")
+
+
+def classes_for(i, step, full):
+    """every class at the steps where the class decides the outcome; a rotating Exception class and a rotating
+    BaseException-only class elsewhere"""
+    if full and (step in CATCH_STEPS or (isinstance(step, tuple) and step == ("postCon", 0))):
+        return CLASSES
+    return [EXC_CLASSES[i % len(EXC_CLASSES)], BASE_CLASSES[(i // 3) % len(BASE_CLASSES)]]
 
 INT_SHAPE = {"vars": [["k", 0.0, 5.0, "integer"], ["y", None, 2.0, "continuous"]], "sense": "min",
              "obj": [[1, [[0, 2]]], [1, [[1, 2]]], [-1, [[1, 1]]]],
@@ -57,6 +82,10 @@ POINTS = {"B": ([2.0, 1.0], [3.0, 2.0]), "E": ([1.0, 0.0], [0.25, 0.25]), "C": (
 WARMUPS = [None, "SLSQP", "trust-constr", "linprog", "auto"]
 CALLS = [("solve", "auto"), ("solve", "SLSQP"), ("solve", "trust-constr"), ("solve", "L-BFGS-B"), ("solve", "Nelder-Mead"),
          ("solve", "linprog"), ("solve", "highs-ds"), ("solve-scipy", "SLSQP"), ("solve-scipy", "Newton-CG"), ("solve-lp", None)]
+# every other `method=` string: on fresh problems in the quick tier, everywhere in the thorough tier
+EXTRA_CALLS = [("solve", "highs"), ("solve", "highs-ipm"), ("solve", "COBYLA"), ("solve", "TNC"), ("solve", "CG"),
+               ("solve", "BFGS"), ("solve", "Powell"), ("solve", "trust-ncg"), ("solve", "dogleg"),
+               ("solve-scipy", "trust-constr"), ("solve-lp", "highs-ipm")]
 
 
 QUICK_WARM_CALLS = [("solve", "auto"), ("solve", "SLSQP"), ("solve", "trust-constr"), ("solve", "linprog"), ("solve-lp", None)]
@@ -119,13 +148,32 @@ def cache_report(P):
     return None
 
 
+def lp_cache_report(P, spec):
+    """the cached LP data must be what a fresh extraction of an untouched twin gives (bit-identical arrays)"""
+    from optyx.analysis import LinearProgramExtractor
+
+    lp = P._lp_cache
+    if lp is None or spec is None:
+        return None
+    ref = LinearProgramExtractor().extract(base.build_problem(spec)[0])
+    for name in ("c", "A_ub", "b_ub", "A_eq", "b_eq"):
+        a, b = getattr(lp, name), getattr(ref, name)
+        if (a is None) != (b is None) or (a is not None and not np.array_equal(np.asarray(a), np.asarray(b))):
+            return f"_lp_cache.{name} differs from a fresh extraction: {a!r} vs {b!r}"[:240]
+    if lp.sense != ref.sense or list(lp.variables) != list(ref.variables) or lp.c0 != ref.c0:
+        return "_lp_cache sense / variables / c0 differ from a fresh extraction"
+    return None
+
+
 def judge(meta, info, P, fault):
     """the property on one faulted run (the next-solve comparison is done by the caller)"""
     if not info["hook_same"]:
         return {"what": "warnings.showwarning was not restored"}
     if not info["reclimit_same"]:
         return {"what": "the recursion limit changed"}
-    cr = cache_report(P)
+    if not info.get("globals_same", True):
+        return {"what": "warnings.filters / numpy error state changed"}
+    cr = cache_report(P) or (lp_cache_report(P, TABLE_SHAPES.get(meta.get("shape"))) if not meta.get("edited") else None)
     if cr is not None:
         return {"what": "problem caches invalid after the fault: " + cr}
     if info["fired"]:
@@ -151,26 +199,37 @@ def fault_table(rep, rng, thorough, with_model=True):
         for warm in WARMUPS:
             if warm in ("linprog",) and shape not in ("E", "IL"):
                 continue
-            for call, method in CALLS:
+            for call, method in CALLS + EXTRA_CALLS:
                 if not thorough and warm is not None and (call, method) not in QUICK_WARM_CALLS:
                     continue
-                lp_call = call == "solve-lp" or method in ("linprog", "highs-ds")
+                extra = (call, method) in EXTRA_CALLS
+                if extra and not thorough and shape not in ("B", "IL"):
+                    continue
+                lp_call = call == "solve-lp" or method in ("linprog", "highs", "highs-ds", "highs-ipm")
                 if lp_call and shape not in ("E", "IL"):
                     # LP methods on a nonlinear problem only reach the NonLinearError: keep one representative
                     if not (shape == "B" and warm is None):
                         continue
                 for variant in (0, 1):
+                    if extra and not thorough and variant == 1:
+                        continue
                     for pass_ in (0, 1):
+                        if extra and not thorough and pass_ == 1:
+                            continue
                         if pass_ == 1 and not (variant == 1 and method in ("SLSQP", "auto")):
                             if not (thorough and i % 5 == 0):
                                 continue
                         for step in steps_for(ncons):
-                            full = thorough or (warm is None and variant == 0 and pass_ == 0 and shape in ("B", "IL"))
-                            classes = CLASSES if full else [CLASSES[i % 4], CLASSES[3 - (i // 4) % 2 * 3]]
-                            for cls in dict.fromkeys(classes):
+                            full = not extra and (thorough or (warm is None and pass_ == 0 and shape in ("B", "IL"))
+                                                  or (pass_ == 1 and shape == "B" and warm is None))
+                            for cls in dict.fromkeys(classes_for(i, step, full)):
                                 i += 1
-                                P = make_problem(shape, warm, variant)
                                 r1, r2, lr = stub_results(shape, variant)
+                                # the reference is taken BEFORE the fault (module-level state polluted by the fault
+                                # would otherwise affect both sides alike)
+                                ref, _ = base.observe(make_problem(shape, warm, variant), call, method, False, True, None,
+                                                      r1, r2, lr)
+                                P = make_problem(shape, warm, variant)
                                 f = base.Fault(pass_, step, cls)
                                 if with_model:
                                     lines.append(base.model_line(call, P, method, False, True, None, r1, r2, lr, f))
@@ -181,11 +240,18 @@ def fault_table(rep, rng, thorough, with_model=True):
                                 if bad is None:
                                     # the next solve of the same problem vs a twin that never saw the fault
                                     nxt, _ = base.observe(P, call, method, False, True, None, r1, r2, lr)
-                                    twin = make_problem(shape, warm, variant)
-                                    ref, _ = base.observe(twin, call, method, False, True, None, r1, r2, lr)
                                     if nxt != ref:
                                         bad = {"what": "the solve after the fault differs from the solve of an untouched twin",
                                                "after_fault": nxt[:500], "twin": ref[:500]}
+                                    elif i % 5 == 0:
+                                        # object lifetime: drop the faulted problem, rebuild the same model (same names)
+                                        del P
+                                        again, _ = base.observe(make_problem(shape, warm, variant), call, method, False, True,
+                                                                None, r1, r2, lr)
+                                        P = make_problem(shape, warm, variant)
+                                        if again != ref:
+                                            bad = {"what": "a rebuilt model of the same names solves differently after the fault",
+                                                   "rebuilt": again[:500], "before_fault": ref[:500]}
                                 if bad is not None:
                                     bad.update({"kind_of_case": "table", "case": meta, "observed": text[:300]})
                                     rep.oracle_failures.append(bad)
@@ -206,6 +272,86 @@ def fault_table(rep, rng, thorough, with_model=True):
             rep.samples.append({"case": meta, "observed": text[:400]})
 
 
+# ----------------------------------------------------------------------------- histories on one problem
+
+
+def apply_edit(P, edit):
+    """an edit between solves: bound loosened / tightened / removed on the first variable, or a new constraint"""
+    v = P.variables[0]
+    if edit == "tighten":
+        v.ub = (v.ub if v.ub is not None else 8.0) - 0.5
+    elif edit == "loosen":
+        v.lb = (v.lb if v.lb is not None else 0.0) - 1.0
+    elif edit == "remove-bound":
+        v.ub = None
+    elif edit == "add-constraint":
+        P.subject_to(v <= 64.0)
+    elif edit == "re-objective":
+        P.minimize(P.objective) if P.sense == "minimize" else P.maximize(P.objective)
+
+
+HISTORY_EDITS = [None, "tighten", "loosen", "remove-bound", "add-constraint", "re-objective"]
+LIN_METHODS = ["auto", "linprog", "highs-ds", "SLSQP", "trust-constr", "L-BFGS-B"]
+NL_METHODS = ["auto", "SLSQP", "trust-constr", "L-BFGS-B", "Newton-CG", "Nelder-Mead"]
+
+
+def fault_histories(rep, rng, thorough, with_model=True):
+    """one or two faulted solves (any step, any class, LP- and NLP-path methods interleaved), an optional edit of the
+    problem, then a clean solve — compared with a twin that went through the same edit but never saw a fault;
+    every call of the history is also compared with the stateful Lean model"""
+    lines, texts, metas = [], [], []
+    n = 3000 if thorough else 600
+    for i in range(n):
+        shape = ["B", "E", "IL", "I", "C"][i % 5]
+        spec = TABLE_SHAPES[shape]
+        methods = LIN_METHODS if shape in ("E", "IL") else NL_METHODS
+        variant = rng.randint(0, 1)
+        r1, r2, lr = stub_results(shape, variant)
+        edit = HISTORY_EDITS[(i // 5) % len(HISTORY_EDITS)]
+        final_m = rng.choice(methods)
+        twin = make_problem(shape, None, variant)
+        apply_edit(twin, edit)
+        ref, _ = base.observe(twin, "solve", final_m, False, True, None, r1, r2, lr)
+        warm = rng.choice([None, None, "SLSQP", "auto"])
+        P = make_problem(shape, warm, variant)
+        hist, bad = [], None
+        for _ in range(rng.randint(1, 2)):
+            m = rng.choice(methods)
+            step = rng.choice(steps_for(len(spec["cons"])))
+            cls = rng.choice(CLASSES)
+            f = base.Fault(rng.choice([0, 0, 1]), step, cls)
+            if with_model:
+                lines.append(base.model_line("solve", P, m, False, True, None, r1, r2, lr, f))
+            text, info = base.observe(P, "solve", m, False, True, None, r1, r2, lr, fault=f)
+            hist.append({"method": m, "fault": f.js()})
+            meta = {"shape": shape, "warm": warm, "history": list(hist), "edit": edit, "final": final_m, "variant": variant}
+            texts.append((meta, text))
+            bad = bad or judge({"shape": shape}, info, P, f)
+        apply_edit(P, edit)
+        if with_model:
+            lines.append(base.model_line("solve", P, final_m, False, True, None, r1, r2, lr, None))
+        nxt, info = base.observe(P, "solve", final_m, False, True, None, r1, r2, lr)
+        meta = {"shape": shape, "warm": warm, "history": list(hist), "edit": edit, "final": final_m, "variant": variant}
+        texts.append((meta, nxt))
+        # the cache flags may legitimately differ from the twin's (an earlier solve warmed them): compare what the
+        # caller sees — outcome and solver calls
+        if bad is None and nxt.split(" | ")[:2] != ref.split(" | ")[:2]:
+            bad = {"what": "after faulted solves (and the same edit) the problem solves differently from an untouched twin",
+                   "after_faults": nxt[:500], "twin": ref[:500]}
+        if bad is None and cache_report(P) is not None:
+            bad = {"what": "problem caches invalid at the end of the history: " + cache_report(P)}
+        rep.histogram[f"history:{edit}"] = rep.histogram.get(f"history:{edit}", 0) + 1
+        rep.nontrivial.add(hash(str(meta)))
+        if bad is not None:
+            bad.update({"kind_of_case": "history", "case": meta})
+            rep.oracle_failures.append(bad)
+    rep.evaluations += len(texts)
+    outs = run_lean_unit(lines) if with_model else []
+    for (meta, text), model in zip(texts, outs):
+        if text != model:
+            rep.corr_mismatches.append({"case": meta, "impl": text[:700], "model": model[:700]})
+
+
 # ----------------------------------------------------------------------------- faults inside the real solvers
 
 
@@ -217,12 +363,17 @@ REAL_SHAPES = {
           "obj": [[-1, [[0, 2]]], [-2, [[1, 2]]], [1, [[0, 1], [1, 1]]], [3, [[0, 1]]]],
           "cons": [[[[1, [[0, 2]]], [1, [[1, 2]]]], "<=", 4.0], [[[1, [[0, 1]]], [-1, [[1, 1]]]], "==", 0.5]]},
 }
-REAL_METHODS = {"A": ["SLSQP", "trust-constr", "auto"], "B": ["SLSQP", "trust-constr"], "C": ["L-BFGS-B", "BFGS", "trust-constr", "Newton-CG", "Nelder-Mead"],
-                "Q": ["SLSQP", "trust-constr", "COBYLA"]}
+# "SLSQP>retry": the first (SLSQP) call returns a fabricated "successful" infeasible point, so that the automatic
+# retry runs the REAL trust-constr (its callbacks, its Hessian) with the fault armed
+REAL_METHODS = {"A": ["SLSQP", "trust-constr", "auto", "SLSQP>retry", "COBYLA"],
+                "B": ["SLSQP", "trust-constr", "SLSQP>retry"],
+                "C": ["L-BFGS-B", "BFGS", "trust-constr", "Newton-CG", "Nelder-Mead", "TNC", "CG", "Powell", "trust-ncg", "dogleg"],
+                "Q": ["SLSQP", "trust-constr", "COBYLA", "SLSQP>retry", "auto"]}
+FAR_POINT = {"A": [-64.0], "B": [30.0, 20.0], "Q": [9.0, 9.0]}
 EVAL_KINDS = ["obj", "grad", "con", "jac", "hess", "entry"]
 
 
-def real_fault_run(spec, method, kind, k, cls, arm=True):
+def real_fault_run(spec, method, kind, k, cls, arm=True, far=None):
     """solve with the real SciPy; the k-th evaluation of `kind` raises `cls`.
     -> dict(outcome, fired, inside, hook_same, reclimit_same, problem)"""
     import optyx.core.autodiff as AD
@@ -230,6 +381,8 @@ def real_fault_run(spec, method, kind, k, cls, arm=True):
     import optyx.solvers.scipy_solver as SS
 
     P = base.build_problem(spec)[0]
+    retry = method == "SLSQP>retry"
+    method = "SLSQP" if retry else method
     st = {"n": {}, "fired": False, "inside": False, "in_min": False, "armed": arm, "ce": 0, "cj": 0, "exc": None}
 
     def tick(kd):
@@ -273,6 +426,11 @@ def real_fault_run(spec, method, kind, k, cls, arm=True):
         st["in_min"] = True
         try:
             tick("entry")
+            if retry and kw.get("method") == "SLSQP":
+                from scipy.optimize import OptimizeResult
+
+                return OptimizeResult(x=np.array(far, dtype=float), success=True, fun=0.0, nit=1,
+                                      message="Optimization terminated successfully")
             return o_min(*a, **kw)
         finally:
             st["in_min"] = False
@@ -282,6 +440,7 @@ def real_fault_run(spec, method, kind, k, cls, arm=True):
     with warnings.catch_warnings(record=True), np.errstate(all="ignore"):
         warnings.simplefilter("always")
         hook0 = warnings.showwarning
+        err0 = np.geterr()
         CC.compile_expression, AD.compile_jacobian, AD.compile_hessian, SS.minimize = p_ce, p_cj, p_ch, p_min
         try:
             try:
@@ -291,7 +450,7 @@ def real_fault_run(spec, method, kind, k, cls, arm=True):
         finally:
             CC.compile_expression, AD.compile_jacobian, AD.compile_hessian, SS.minimize = o_ce, o_cj, o_ch, o_min
             st["armed"] = False
-        out["hook_same"] = warnings.showwarning is hook0
+        out["hook_same"] = warnings.showwarning is hook0 and np.geterr() == err0
     out["reclimit_same"] = sys.getrecursionlimit() == rl0
     out.update(fired=st["fired"], inside=st["inside"], problem=P, injected=st["exc"])
     return out
@@ -331,16 +490,17 @@ def judge_real(case, out, cls):
                 return {"what": f"{cls.__name__} raised outside the solver call / not an Exception was swallowed"}
         elif exc is not out["injected"]:
             return {"what": f"the injected {cls.__name__} surfaced as {type(exc).__name__}: {exc}"[:300]}
-    nxt = plain_solve(P, case["method"])
-    bk = (case["shape"], case["method"])
+    pm = "SLSQP" if case["method"] == "SLSQP>retry" else case["method"]
+    nxt = plain_solve(P, pm)
+    bk = (case["shape"], pm)
     if bk not in _BASELINES:   # deterministic: one baseline solve per (shape, method), checked to be repeatable
-        _BASELINES[bk] = plain_solve(base.build_problem(case["spec"])[0], case["method"])
-        again = plain_solve(base.build_problem(case["spec"])[0], case["method"])
+        _BASELINES[bk] = plain_solve(base.build_problem(case["spec"])[0], pm)
+        again = plain_solve(base.build_problem(case["spec"])[0], pm)
         if not same_solution(_BASELINES[bk], again):
             _BASELINES[bk] = None
     ref = _BASELINES[bk]
     if ref is None:
-        ref = plain_solve(base.build_problem(case["spec"])[0], case["method"])
+        ref = plain_solve(base.build_problem(case["spec"])[0], pm)
     if not same_solution(nxt, ref):
         return {"what": "the solve after the fault differs from a baseline solve",
                 "after_fault": [nxt.status.name, dict(nxt.values), nxt.objective_value],
@@ -357,9 +517,13 @@ def real_fault_cases(rep, rng, thorough, kmax=None):
                 if not thorough and len(ks) > 4:
                     ks = [0, 1] + rng.sample(ks[2:], 2)
                 for k in ks:
-                    for cls in (CLASSES if (thorough or k == 0) else [CLASSES[(k + len(kind)) % 4], KeyboardInterrupt]):
+                    j = k + len(kind) + len(method)
+                    some = [REAL_CLASSES[j % len(REAL_CLASSES)], BASE_CLASSES[j % len(BASE_CLASSES)]]
+                    if k == 0 and not thorough:
+                        some += [MemoryError, REAL_CLASSES[(j + 5) % len(REAL_CLASSES)]]
+                    for cls in dict.fromkeys(REAL_CLASSES if thorough else some):
                         case = {"shape": shape, "spec": spec, "method": method, "eval": kind, "k": k, "cls": cls.__name__}
-                        out = real_fault_run(spec, method, kind, k, cls)
+                        out = real_fault_run(spec, method, kind, k, cls, far=FAR_POINT.get(shape))
                         rep.evaluations += 1
                         tag = f"real:{kind}:" + ("not-reached" if not out["fired"] else
                                                  ("inside" if out["inside"] else "outside") + ":" +
@@ -382,7 +546,7 @@ def real_lp_faults(rep):
     spec = base.SHAPES["E"]["spec"]
     for where in ("linprog", "extract"):
         for cls in CLASSES:
-            for method in ("auto", "linprog", "highs-ds"):
+            for method in ("auto", "linprog", "highs", "highs-ds", "highs-ipm"):
                 P = base.build_problem(spec)[0]
                 o_lp, o_ex = SO.linprog, AN.LinearProgramExtractor.extract
                 injected = cls("injected fault")
@@ -445,6 +609,7 @@ def run(ctx) -> core.Report:
                            "solver entry (k ≤ 5 quick, ≤ 12 thorough); real linprog / extractor faults; non-trivial = "
                            "distinct runs in which the fault fired")
     fault_table(rep, rng, thorough)
+    fault_histories(rep, rng, thorough)
     real_fault_cases(rep, rng, thorough)
     real_lp_faults(rep)
     rep.exhaustive = thorough
@@ -454,6 +619,27 @@ def run(ctx) -> core.Report:
 def search(ctx, rep):
     r2 = core.Report()
     rng = core.Rng(ctx["seed"] + 49979687)
+    # first: the cases on which model and implementation disagreed, with the REAL solvers: the same shape and
+    # method, the fault at the k-th evaluation of every kind, every exception class
+    seen = set()
+    for m in rep.corr_mismatches:
+        c = m.get("case", {})
+        key = (c.get("shape"), c.get("method") or c.get("final"))
+        if key in seen or key[0] not in TABLE_SHAPES or key[1] in (None, "linprog", "highs", "highs-ds", "highs-ipm"):
+            continue
+        seen.add(key)
+        for kind in EVAL_KINDS:
+            for k in ([0] if kind == "entry" else [0, 1, 3]):
+                for cls in REAL_CLASSES:
+                    case = {"shape": key[0], "spec": TABLE_SHAPES[key[0]], "method": key[1], "eval": kind, "k": k,
+                            "cls": cls.__name__}
+                    out = real_fault_run(case["spec"], key[1], kind, k, cls)
+                    bad = judge_real(case, out, cls)
+                    if bad is not None:
+                        bad.update({"kind_of_case": "real", "case": case})
+                        return bad
+        if len(seen) >= 4:
+            break
     real_lp_faults(r2)
     if r2.oracle_failures:
         return r2.oracle_failures[0]
@@ -472,7 +658,7 @@ def replay(payload) -> bool:
     clsmap = {c.__name__: c for c in CLASSES}
     if kind == "real":
         c = f["case"]
-        out = real_fault_run(c["spec"], c["method"], c["eval"], c["k"], clsmap[c["cls"]])
+        out = real_fault_run(c["spec"], c["method"], c["eval"], c["k"], clsmap[c["cls"]], far=FAR_POINT.get(c["shape"]))
         print({k: v for k, v in out.items() if k != "problem"})
         bad = judge_real(c, out, clsmap[c["cls"]])
         print(bad)
@@ -492,6 +678,27 @@ def replay(payload) -> bool:
                                   None, r1, r2, lr)
             if nxt != ref:
                 bad = {"what": "next solve differs from twin", "after_fault": nxt, "twin": ref}
+        print(bad)
+        return bad is None
+    if kind == "history":
+        c = f["case"]
+        shape, variant = c["shape"], c["variant"]
+        r1, r2, lr = stub_results(shape, variant)
+        twin = make_problem(shape, None, variant)
+        apply_edit(twin, c["edit"])
+        ref, _ = base.observe(twin, "solve", c["final"], False, True, None, r1, r2, lr)
+        P = make_problem(shape, c.get("warm"), variant)
+        bad = None
+        for h in c["history"]:
+            step = h["fault"][1]
+            flt = base.Fault(h["fault"][0], step if isinstance(step, str) else tuple(step), clsmap[h["fault"][2]])
+            text, info = base.observe(P, "solve", h["method"], False, True, None, r1, r2, lr, fault=flt)
+            print(text[:300])
+            bad = bad or judge({"shape": shape}, info, P, flt)
+        apply_edit(P, c["edit"])
+        nxt, _ = base.observe(P, "solve", c["final"], False, True, None, r1, r2, lr)
+        if bad is None and nxt.split(" | ")[:2] != ref.split(" | ")[:2]:
+            bad = {"what": "differs from twin", "after_faults": nxt, "twin": ref}
         print(bad)
         return bad is None
     if kind == "real-lp":
